@@ -1,6 +1,7 @@
 CONSTANTS MaxSteps = 2
           Shape = "free"
-          SeedNames = {"num", "nan", "mixed", "ties", "dup"}
+          SeedNames = {"num", "nan", "mixed", "ties", "dup", "real"}
+          ErrOnly = {}
           Hist = FALSE
 INIT Init
 NEXT Next
